@@ -6,8 +6,9 @@
 
   Repaired defects are parameters (`TParams`) so that the behaviour of the pinned tree
   stays expressible for the negation theorems:
-    * `wakeWriterFixed` : the ACK path's `was_writeable` test (pinned tree: inverted, so a
-      blocked writer is only woken by an ACK that arrives when it is no longer blocked);
+    * `wakeWriterFixed` : the ACK path wakes a pending writer whenever the window has room
+      (pinned tree: only when `in flight + mss > cwnd` did NOT hold before the ACK, so a
+      blocked writer was only woken by an ACK that arrived when it was no longer blocked);
     * `wakeReaderFixed` : `maybe_wakeup_reader` wakes whenever data is queued (pinned tree:
       only when the queue length became exactly 1);
     * `releaseOnDrop`   : `packet_dropped` releases the segment's in-flight bytes;
@@ -368,7 +369,7 @@ def NetSt.tcpAckPost (tp : TParams) (n : NetSt) (name : String) (wasBlocked : Bo
     let s := { s with cwnd := s.cwnd + s.mss * acked / s.cwnd }
     let writeable := decide (s.inFlight + (s.mss : Int) ≤ (s.cwnd : Int))
     -- pinned tree: `!was_writeable && is_writeable` with was_writeable = "was blocked"
-    let wake := if tp.wakeWriterFixed then wasBlocked && writeable else !wasBlocked && writeable
+    let wake := if tp.wakeWriterFixed then writeable else !wasBlocked && writeable
     (n.setTcp name s, wake)
 
 /-- release the reorder buffer into the incoming queue while the next number is present -/
@@ -601,7 +602,9 @@ def NetSt.accClose (n : NetSt) (now : Int) (name : String) : NetSt × List NEff 
     let s := match s.acc with | some a => { s with acc := some { a with queueLimit := -1 } } | none => s
     let (s, e1) := s.abortAccept
     let (n, e2) := (n.setTcp name s).tcpClose now name
-    (n, e1 ++ e2)
+    -- connections still queued are reset (check_accept_queue() on the now closed acceptor)
+    let (n, e3) := n.accCheckQueue now name
+    (n, e1 ++ e2 ++ e3)
 
 /-- move construction of a TCP socket -/
 def NetSt.tcpMove (n : NetSt) (src dst : String) : NetSt :=
